@@ -18,6 +18,8 @@ def drains(F, fn):
         paths = sym.run()
     except S.TooManyPaths:
         return ["too many paths to enumerate"], n_loops
+    # a loop that lives in an expanded helper (`filter_seq(seq, |x| ..)`) counts as the function's loop
+    n_loops = max([n_loops] + [p.loops for p in paths])
     problems = []
     for p in paths:
         if not p.loops:
